@@ -21,6 +21,45 @@ def determinism(run, name, recs):
             text_path_skipped=summ[0]["summary"].get("text_path_skipped", 0))
 
 
+def history_dependence(run, maxlen=3, alphabet="A4"):
+    """Tokenization may depend on the registrations made so far, never on what was tokenized before them: for each user operator
+    (+++ prefix, --- postfix, hi infix) every input <= maxlen characters is tokenized after the registration once in a process that
+    tokenized all of them BEFORE the registration as well, and once in a process that did not.  A disagreement with the Lexer machine
+    that only the first process shows is history dependence (a remembered answer that a registration did not invalidate)."""
+    import lexfam
+    bit = {"prefix": 1, "postfix": 2, "infix": 4}
+    opname = {"prefix": "+++", "postfix": "---", "infix": "hi"}
+    files = {}
+    for mask in (0, 1, 2, 4):
+        res = tlc.run("mc/MCLexer.tla", lexfam.mc_cfg("c16-hist-S%d" % mask, maxlen, alphabet, "OpsS%d" % mask), workers=16, timeout=1800)
+        run.tlc("M:Lexer/c16-hist/S%d" % mask, res)
+        if res.violation:
+            run.model_violation("Lexer/c16-hist/S%d" % mask, res)
+            return
+        recs = core.tlc_printed_records(res)
+        path = os.path.join(tlc.WORK, "c16-lex-hist-S%d.ndjson" % mask)
+        core.write_ndjson(path, recs)
+        files[mask] = (path, recs)
+    nb = 0
+    for k in ("prefix", "postfix", "infix"):
+        m = bit[k]
+        bad = {}
+        for variant in ("history", "fresh"):
+            script = ([{"replay": files[0][0], "stage": "S0"}] if variant == "history" else []) + [{"reg": [k, opname[k]]}, {"replay": files[m][0], "stage": "S%d" % m}]
+            sp = os.path.join(tlc.WORK, "c16-lex-hist-script.json")
+            json.dump(script, open(sp, "w"))
+            out, _ = core.run_vh(["lex-history", sp])
+            bad[variant] = {o["mismatch"]: o for o in out if "mismatch" in o and o["stage"] == "S%d" % m}
+            run.traces += len(files[m][1])
+            run.evaluations += len(files[m][1])
+        for idx, o in bad["history"].items():
+            if idx not in bad["fresh"]:
+                nb += 1
+                run.violation("C16/lex-history", "after register_%s_op(%r), tokenizing %r gives %s only when inputs had been tokenized before the registration (a fresh process gives the specified tokens)"
+                              % (k, opname[k], o["input"], o["why"]), {"family": "lex-history", "order": [k], "stage": "S%d" % m, "record": files[m][1][idx], "got": o.get("got"), "why": o["why"]})
+    run.leg("R:Lexer/history-dependence", operators=3, mismatches=nb)
+
+
 def check(run):
     thorough = run.tier == "thorough"
     run.rules.append("leg M: in the specification an evaluation's result is a function of (program, context contents, registrations so far) by construction of Den and of the atomic engine, "
@@ -33,6 +72,9 @@ def check(run):
                      "non-trivial = every case (each is compared across 3 runs)")
     run.rules.append("leg T: %d random programs evaluated concurrently by 8 threads, each on its own contexts, no registrations: every recorded outcome validated by TLC against Den; "
                      "sequential histories in fresh processes interleaving evaluations of different registry cells validated against the atomic engine" % (16000 if thorough else 2400))
+    run.rules.append("history dependence of the tokenizer: every input <= 3 characters tokenized after registering +++ / --- / hi, once in a process that had tokenized all of them before the registration "
+                     "and once in a fresh one; expected tokens from the Lexer machine under the registered set; a disagreement only the first process shows is a violation")
+    history_dependence(run)
     eng.model(run, which=["initA", "initC", "reent"])
     recs = ef.eval_model_and_replay(run, "assign", ef.mceval_cfg("c16-assign", family="assign", chain=2), "C16", sample_filter=lambda r: True)
     step = 1 if thorough else 6
@@ -56,6 +98,9 @@ def check(run):
 
 def replay(path, seed):
     case = json.load(open(path))["case"]
+    if case["family"] == "lex-history":
+        import lexfam
+        return lexfam.replay(path, seed)
     if case["family"] == "determinism":
         p = os.path.join(tlc.WORK, "determinism-one.ndjson")
         core.write_ndjson(p, [case["record"], case["neighbour"]])
